@@ -476,6 +476,10 @@ def observe(node):
             out["stop"] = b2s(o.shouldStop)
         except Exception as ex:
             out["stop"] = "raises:%s" % type(ex).__name__
+    if k in ("TT", "Text", "ByTest"):
+        out["cnt"] = [len(o.errors), len(o.failures), len(o.unexpectedSuccesses)]
+    else:
+        out["cnt"] = []
     if k in ("Py26", "Py27", "Tw", "S2E"):
         out["tags"] = NOTAGS
     else:
@@ -484,3 +488,32 @@ def observe(node):
         except Exception as ex:
             out["tags"] = "raises:%s" % type(ex).__name__
     return out
+
+
+def parse_text_summary(text):
+    """TextTestResult output of the last run -> dict(ran, plural, verdict, failures, sections)"""
+    import re
+
+    last = text.rsplit("Tests running...\n", 1)[-1]
+    m = re.search(r"^Ran (\d+) (tests?) in [\d.]+s$", last, re.M)
+    out = {"ran": None, "word": None, "verdict": None, "failures": None}
+    if m:
+        out["ran"] = int(m.group(1))
+        out["word"] = m.group(2)
+        tail = last[m.end() :].strip().split("\n")
+        if tail and tail[0] == "OK":
+            out["verdict"] = "OK"
+        elif tail:
+            f = re.match(r"^FAILED \(failures=(\d+)\)$", tail[0])
+            if f:
+                out["verdict"] = "FAILED"
+                out["failures"] = int(f.group(1))
+    out["sections"] = [len(re.findall(r"^ERROR: ", last, re.M)), len(re.findall(r"^FAIL: ", last, re.M)),
+                       len(re.findall(r"^UNEXPECTED SUCCESS: ", last, re.M))]
+    return out
+
+
+def expected_text_summary(run, cnt, ok):
+    bad = sum(cnt)
+    return {"ran": run, "word": "test" if run == 1 else "tests", "verdict": "OK" if ok == "T" else "FAILED",
+            "failures": None if ok == "T" else bad, "sections": list(cnt)}
